@@ -945,6 +945,52 @@ type candidate struct {
 	why        string
 }
 
+// canonicalClean: a clean universe that uses none of the leniencies listed at the vacuity guard.
+func canonicalClean(s *Script) bool {
+	if s.RawHdr != "" || (s.Reg != "201" && s.Reg != "201public") || s.Tok != "200" {
+		return false
+	}
+	for _, line := range s.Headers {
+		for _, c := range line {
+			for _, p := range c.Params {
+				if !p.Q && !isToken(p.V) {
+					return false
+				}
+			}
+		}
+	}
+	for _, e := range s.GET {
+		if e.Status != 200 || strings.Contains(e.Body, "http://localhost:9100/ep/") || strings.Contains(e.Body, `"plain"`) {
+			return false
+		}
+	}
+	return true
+}
+
+// normURL brings a URL into a comparable form: lower-case scheme and host, default port dropped.
+func normURL(raw string) string {
+	u, err := url.Parse(raw)
+	if err != nil || u.Host == "" {
+		return raw
+	}
+	u.Scheme = strings.ToLower(u.Scheme)
+	host := strings.ToLower(u.Host)
+	if (u.Scheme == "https" && strings.HasSuffix(host, ":443")) || (u.Scheme == "http" && strings.HasSuffix(host, ":80")) {
+		host = host[:strings.LastIndexByte(host, ':')]
+	}
+	u.Host = host
+	return u.String()
+}
+
+func containsURL(xs []string, x string) bool {
+	for _, y := range xs {
+		if x == y || normURL(x) == normURL(y) {
+			return true
+		}
+	}
+	return false
+}
+
 func contains(xs []string, x string) bool {
 	for _, y := range xs {
 		if x == y {
@@ -1028,7 +1074,24 @@ func run(s Script) (res vt.Result) {
 		return
 	}
 	after, _ := h.TokenSource(ctx)
-	installed := after != before
+	// "a new token is installed" is judged by the token the source yields, not by the identity of the
+	// TokenSource value (a handler may hand out a fresh wrapper on every call).
+	beforeTok, afterTok := "", ""
+	if before != nil {
+		if t, err := before.Token(); err == nil && t != nil {
+			beforeTok = t.AccessToken
+		} else {
+			beforeTok = fmt.Sprintf("error: %v", err)
+		}
+	}
+	if after != nil {
+		if t, err := after.Token(); err == nil && t != nil {
+			afterTok = t.AccessToken
+		} else {
+			afterTok = fmt.Sprintf("error: %v", err)
+		}
+	}
+	installed := afterTok != beforeTok
 
 	// ---- I1: every request goes to https or loopback
 	for _, r := range u.log {
@@ -1163,9 +1226,20 @@ func run(s Script) (res vt.Result) {
 			}
 		}
 		if !matched {
-			cands = append(cands, candidate{issuer: d.Issuer, authz: []string{d.AuthorizationEndpoint}, token: []string{d.TokenEndpoint},
+			// The property restricts trust by issuer match, PKCE and URL schemes, not by a list of locations: a
+			// document fetched (over https or loopback, I1) from some other place is judged for the named issuer
+			// it claims to speak for.
+			c := candidate{issuer: d.Issuer, authz: []string{d.AuthorizationEndpoint}, token: []string{d.TokenEndpoint},
 				register: []string{d.RegistrationEndpoint}, advertised: d.IssSupported,
-				why: fmt.Sprintf("document at %s is at no permitted metadata location of any issuer named by protected-resource metadata", r.URL)})
+				why: fmt.Sprintf("document at %s carries an issuer that no protected-resource metadata (nor the legacy origin rule) names", r.URL)}
+			for _, x := range named {
+				if defects := asDefects(&d, x); issuerEq(d.Issuer, x) && contains(allowed, x) {
+					c.named, c.trusted = x, len(defects) == 0
+					c.why = fmt.Sprintf("document at %s for issuer %q: defects %v", r.URL, x, defects)
+					break
+				}
+			}
+			cands = append(cands, c)
 		}
 	}
 	// Documented fallback (2025-03-26 default endpoints) for servers without metadata.
@@ -1178,6 +1252,10 @@ func run(s Script) (res vt.Result) {
 		t := trimOneSlash(x)
 		c := candidate{issuer: x, named: x, authz: []string{x + "/authorize", t + "/authorize"}, token: []string{x + "/token", t + "/token"},
 			register: []string{x + "/register", t + "/register"}}
+		if o := originOf(x); o != "" && o != t {
+			// the 2025-03-26 text takes the default endpoints relative to the authorization base URL (path discarded)
+			c.authz, c.token, c.register = append(c.authz, o+"/authorize"), append(c.token, o+"/token"), append(c.register, o+"/register")
+		}
 		c.trusted = contains(allowed, x) && as4xxOnly
 		if !c.trusted {
 			c.why = fmt.Sprintf("default endpoints of %q: issuer allowed %v, every AS metadata request answered 4xx %v", x, contains(allowed, x), as4xxOnly)
@@ -1201,18 +1279,19 @@ func run(s Script) (res vt.Result) {
 		}
 	}
 	consistent := func(c candidate) bool {
+		// compared after URL normalisation (case of scheme and host, default port)
 		for _, a := range authBase {
-			if !contains(c.authz, a) {
+			if !containsURL(c.authz, a) {
 				return false
 			}
 		}
 		for _, a := range regURLs {
-			if !contains(c.register, a) {
+			if !containsURL(c.register, a) {
 				return false
 			}
 		}
 		for _, a := range tokURLs {
-			if !contains(c.token, a) {
+			if !containsURL(c.token, a) {
 				return false
 			}
 		}
@@ -1294,8 +1373,13 @@ func run(s Script) (res vt.Result) {
 	flowExpected := s.Status == 401 || (s.Status == 403 && bearerErr == "insufficient_scope")
 	if s.Clean && flowExpected {
 		switch {
+		case authErr != nil && !canonicalClean(&s):
+			// C15 is a safety property: a handler that refuses more than today's (unquoted URL in the challenge,
+			// 200 instead of 201 from the registration endpoint, form-encoded token response, 4xx other than 404 at a
+			// metadata location, http-loopback endpoints, "plain" among the PKCE methods) still satisfies it.
+			res.Class("guard/clean-but-not-canonical-refused")
 		case authErr != nil:
-			res.Failf("guard: every document, response and authorization result was valid, yet Authorize failed: %v", authErr)
+			res.Failf("guard: every document, response and authorization result was valid and in canonical form, yet Authorize failed: %v", authErr)
 		case !installed || after == nil:
 			res.Failf("guard: Authorize succeeded on a clean universe but installed no token source")
 		default:
@@ -1342,7 +1426,7 @@ func run(s Script) (res vt.Result) {
 		}
 	}
 	if src != nil && usedEndpoints {
-		if len(src.authz) == 2 {
+		if len(src.authz) >= 2 {
 			res.Class("source/default-endpoints-fallback")
 		} else {
 			res.Class("source/metadata-document")
